@@ -54,10 +54,15 @@ func applySearchSingleNode(colWips map[string]*ColWip, sNode *structs.SearchNode
 		retVal = true
 	}
 
-	// at least one must pass. If and conditions are defined, then this is a noop check
+	// At least one must pass, also when and conditions are defined: the raw search
+	// (executeRawSearchOnNode) intersects the or-results with the and-results, and the
+	// match set computed here is served in place of that search.
 	if sNode.OrSearchConditions != nil {
 		orConditions := applySearchSingleCondition(colWips, sNode.OrSearchConditions, sutils.Or, holderDte, tsKey, segStore)
-		retVal = retVal || orConditions
+		if !orConditions {
+			return false
+		}
+		retVal = true
 	}
 
 	if !retVal {
